@@ -86,6 +86,24 @@ comparison counter `ticks`), the same result value, the same fault with the same
 | `Serialize for Store` | `SrcGen.storeSerialize` | `(Some(size), map)`: the input `Store.visitSeq` reads | `SrcEquiv.storeSerialize` |
 | `Store::{reserve, reserve_exact, try_reserve, try_reserve_exact, shrink_to_fit, capacity}` | `SrcGen.cap…` (`PQ/Model/SrcCap.lean`) | `Cap.stepC` for every allocator | `SrcEquivCap.cap…_eq` |
 
+Forwards and helpers CHECKED TOKEN-EXACTLY (no theorem: `tools/src_skeleton.json` freezes the body; a mismatch makes the
+translator report EVERY function as unparsed, i.e. the whole tie stale):
+
+| Rust function | frozen body | what relies on it |
+|---|---|---|
+| `Store::with_capacity_and_hasher` | `Self { map: IndexMap::with_capacity_and_hasher(capacity, hash_builder), heap: Vec::with_capacity(capacity), qp: Vec::with_capacity(capacity), size: 0 }` | `.storeNew` / `.storeNewCap` of the constructors (`Store.empty`) |
+| `Store::{default, with_default_hasher, with_capacity_and_default_hasher, with_hasher}`, the same five of both queues, `new`, `with_capacity` | one-line chains ending in `with_capacity_and_hasher` | the constructors, `visit_seq` |
+| `Store::get_priority` = `self.map.get(item)`; `{PriorityQueue, DoublePriorityQueue}::get_priority` = `self.store.get_priority(item)` | | `prioMapOrGt/Lt` of `push_increase/decrease` |
+| `Store::{get, get_mut, len, is_empty, iter}`, `IntoIterator for Store / &Store` | `self.map.get_full(item).map(…)`, `self.size`, `Iter { iter: self.map.iter() }`, … | `Store.get`, `.len`, the wrappers of `core_iterators.rs` |
+| `Deserialize for Store::deserialize` = `deserializer.deserialize_seq(StoreVisitor { marker: PhantomData })`, `visit_unit` = `Ok(Store::with_default_hasher())` | | `storeVisitSeq` being what `Store::deserialize` runs |
+| both queues: `clear`, `drain`, `iter`, `iter_mut` (`IterMut::new(self)`), `into_sorted_iter` (`IntoSortedIter { pq: self }`), `into_iter` ×3, `eq` (`self.store == other.store`), `Serialize` (`self.store.serialize(serializer)`), `get`, `get_mut`, `len`, `is_empty` | `self.store.<same name>(…)` | the model's queue-level operations being the store's |
+| both queues: `reserve`, `reserve_exact`, `try_reserve`, `try_reserve_exact`, `shrink_to_fit`, `capacity` | `self.store.<same name>(additional)` | `.reserve` of `extend`; `Cap.stepC` |
+| `From<StdTryReserveError>` / `From<IndexMapTryReserveError> for TryReserveError` (`src/lib.rs`) | `Self { kind: Std(source) }` / `Self { kind: IndexMap(source) }` | the `?` of the `try_reserve*` forwards |
+
+The same file pins, for every file under `src/`, the ordered list of items (attributes, `use`, `mod`, `struct`, `trait`,
+`impl` headers token-exactly, `fn` signatures), the set of files, `Cargo.toml`'s source-selecting parts and the absence of
+`build.rs`: see `PQ/Model/SRC_README.md`, "What the translator checks".
+
 Under panics (`PQ/Model/SrcF.lean`: the `fuse`-th comparison panics, frames unwind, the translated `Drop for Hole` runs):
 
 | Rust function | fused twin of `PQ/Model/Crash.lean` | theorem |
